@@ -1,6 +1,8 @@
 /-
 Helper lemmas for C10 (planner cache): `Recipe.spec` ok ⇒ `Recipe.Good`; the instance-cache invariants; what
-`build_fft`, `plan_and_construct_fft` and one `plan_fft` step guarantee; request histories.
+`build_fft`, `plan_and_construct_fft` and one `plan_fft` step guarantee; request histories; uniqueness of well-formed
+factorisations (`PrimeFactors.WF.unique`), "recipes are functions of the length" (`scalar_hered`, `sse_hered`) and
+canonicity of the scalar / SSE instance trees (`buildFft_canon`, `planStep_canon`, `planHistory_canon`).
 
 `CacheInv` (length-only, membership form) is the invariant of `Proofs/AvxTotal.lean`; the stronger invariant of the
 scalar / SSE caches ("every instance the cache hands out has its key as length and was constructible") is
@@ -1228,5 +1230,724 @@ theorem planHistory_avx_total_aux (ty : ElemTy) (avx2 : Bool) : ∀ (reqs : List
     obtain ⟨_, _, hs1⟩ := planStep_stateInv (.avx avx2) ty s s1 len inv t hs h1
     obtain ⟨ts, s2, h2⟩ := ih s1 hs1
     exact ⟨t :: ts, s2, by simp only [planHistory, h1, h2]⟩
+
+/-! ### uniqueness of well-formed factorisations -/
+
+theorem prime_dvd_prodOf {p : Nat} (hp : Nat.Prime p) : ∀ (l : List PrimeFactor), GoodEntries l → p ∣ prodOf l →
+    ∃ x ∈ l, x.value = p := by
+  intro l
+  induction l with
+  | nil => intro _ hd; simp at hd; exact absurd hd hp.one_lt.ne'
+  | cons x l ih =>
+    intro hg hd
+    rw [prodOf_cons] at hd
+    rcases (Nat.Prime.dvd_mul hp).1 hd with h | h
+    · have h1 := hp.dvd_of_dvd_pow h
+      have h2 := (Nat.prime_dvd_prime_iff_eq hp (hg x (List.mem_cons_self ..)).2.2).1 h1
+      exact ⟨x, List.mem_cons_self .., h2.symm⟩
+    · obtain ⟨y, hy, hv⟩ := ih hg.tail h
+      exact ⟨y, List.mem_cons_of_mem _ hy, hv⟩
+
+theorem head_not_dvd_tail {x : PrimeFactor} {l : List PrimeFactor} (hg : GoodEntries (x :: l))
+    (hs : (x :: l).Pairwise (fun a b => a.value < b.value)) : ¬ x.value ∣ prodOf l := by
+  intro hd
+  obtain ⟨y, hy, hv⟩ := prime_dvd_prodOf (hg x (List.mem_cons_self ..)).2.2 l hg.tail hd
+  have := (List.pairwise_cons.1 hs).1 y hy
+  omega
+
+theorem prodOf_inj : ∀ (l₁ l₂ : List PrimeFactor), GoodEntries l₁ → GoodEntries l₂ →
+    l₁.Pairwise (fun a b => a.value < b.value) → l₂.Pairwise (fun a b => a.value < b.value) →
+    prodOf l₁ = prodOf l₂ → l₁ = l₂ := by
+  intro l₁
+  induction l₁ with
+  | nil =>
+    intro l₂ _ hg2 _ _ he
+    by_contra hne
+    have := five_le_prodOf l₂ hg2 (fun h => hne h.symm)
+    rw [prodOf_nil] at he; omega
+  | cons x t₁ ih =>
+    intro l₂ hg1 hg2 hs1 hs2 he
+    cases l₂ with
+    | nil =>
+      have := five_le_prodOf (x :: t₁) hg1 (by simp)
+      rw [prodOf_nil] at he; omega
+    | cons y t₂ =>
+      have hx := hg1 x (List.mem_cons_self ..)
+      have hy := hg2 y (List.mem_cons_self ..)
+      have hle1 : y.value ≤ x.value := by
+        obtain ⟨z, hz, hv⟩ := prime_dvd_prodOf hx.2.2 (y :: t₂) hg2
+          (he ▸ (by rw [prodOf_cons]; exact Dvd.dvd.mul_right (dvd_pow_self _ (by omega)) _))
+        rcases List.mem_cons.1 hz with rfl | hz
+        · omega
+        · have := (List.pairwise_cons.1 hs2).1 z hz; omega
+      have hle2 : x.value ≤ y.value := by
+        obtain ⟨z, hz, hv⟩ := prime_dvd_prodOf hy.2.2 (x :: t₁) hg1
+          (he ▸ (by rw [prodOf_cons]; exact Dvd.dvd.mul_right (dvd_pow_self _ (by omega)) _))
+        rcases List.mem_cons.1 hz with rfl | hz
+        · omega
+        · have := (List.pairwise_cons.1 hs1).1 z hz; omega
+      have hv : x.value = y.value := by omega
+      have hn1 := head_not_dvd_tail hg1 hs1
+      have hn2 := head_not_dvd_tail hg2 hs2
+      rw [prodOf_cons, prodOf_cons, ← hv] at he
+      have hc1 : x.count ≤ y.count :=
+        exp_le_of_dvd hx.2.2 (by rwa [hv]) (by rw [Nat.mul_comm, ← he]; exact Dvd.intro _ rfl)
+      have hc2 : y.count ≤ x.count :=
+        exp_le_of_dvd hx.2.2 hn1 (by rw [Nat.mul_comm, he]; exact Dvd.intro _ rfl)
+      have hc : x.count = y.count := by omega
+      rw [← hc] at he
+      have ht : prodOf t₁ = prodOf t₂ := Nat.eq_of_mul_eq_mul_left (Nat.pow_pos (by omega)) he
+      have hxy : x = y := by
+        cases x; cases y; simp only at hv hc; subst hv; subst hc; rfl
+      rw [hxy, ih t₂ hg1.tail hg2.tail (List.pairwise_cons.1 hs1).2 (List.pairwise_cons.1 hs2).2 ht]
+
+theorem not_three_dvd_prodOf (l : List PrimeFactor) (hg : GoodEntries l) : ¬ 3 ∣ prodOf l := by
+  intro hd
+  obtain ⟨x, hx, hv⟩ := prime_dvd_prodOf Nat.prime_three l hg hd
+  have := (hg x hx).2.1
+  omega
+
+/-- a number has at most one well-formed `PrimeFactors` -/
+theorem PrimeFactors.WF.unique {f g : PrimeFactors} (hf : f.WF) (hg : g.WF) (hn : f.n = g.n) : f = g := by
+  have h2 := hf.strip_two
+  rw [hn, hg.strip_two] at h2
+  simp only [Prod.mk.injEq] at h2
+  obtain ⟨hrest, hp2⟩ := h2
+  have hnf := not_three_dvd_prodOf _ hf.entries
+  have hng := not_three_dvd_prodOf _ hg.entries
+  have hc1 : f.p3 ≤ g.p3 :=
+    exp_le_of_dvd Nat.prime_three hng (by rw [Nat.mul_comm, hrest]; exact Dvd.intro _ rfl)
+  have hc2 : g.p3 ≤ f.p3 :=
+    exp_le_of_dvd Nat.prime_three hnf (by rw [Nat.mul_comm, ← hrest]; exact Dvd.intro _ rfl)
+  have hp3 : f.p3 = g.p3 := by omega
+  rw [hp3] at hrest
+  have hprod : prodOf f.others = prodOf g.others :=
+    (Nat.eq_of_mul_eq_mul_left (Nat.pow_pos (by omega)) hrest).symm
+  have hoth := prodOf_inj _ _ hf.entries hg.entries hf.sorted hg.sorted hprod
+  have ht := hf.total_eq
+  have hd := hf.distinct_eq
+  rw [← hp2, hp3, hoth, ← hg.total_eq] at ht
+  rw [← hp2, hp3, hoth, ← hg.distinct_eq] at hd
+  cases f; cases g
+  simp only at hn hp2 hp3 hoth ht hd
+  subst hn; subst hp2; subst hp3; subst hoth; subst ht; subst hd
+  rfl
+
+/-! ### recipes are functions of the length -/
+
+/-- the immediate sub-instances of a tree -/
+def Recipe.children : Recipe → List Recipe
+  | .mixedRadix l r => [l, r]
+  | .mixedRadixSmall l r => [l, r]
+  | .goodThomas l r => [l, r]
+  | .goodThomasSmall l r => [l, r]
+  | .raders i => [i]
+  | .bluesteins _ i => [i]
+  | .radixN _ b => [b]
+  | .radix4 _ b => [b]
+  | .radix3 _ b => [b]
+  | .sseRadix4 _ b => [b]
+  | .avxMixedRadix _ i => [i]
+  | .avxRaders i => [i]
+  | .avxBluesteins _ i => [i]
+  | .dft _ => []
+  | .bfly _ => []
+  | .primeBfly _ => []
+  | .avxBfly _ => []
+
+/-- `r` is what the planner `P` designs for its own length, and so is, hereditarily, every sub-recipe -/
+inductive Hered (P : Nat → Except String Recipe) : Recipe → Prop
+  | mk (r : Recipe) : P r.len = .ok r → (∀ c ∈ r.children, Hered P c) → Hered P r
+
+theorem Hered.top {P : Nat → Except String Recipe} {r : Recipe} (h : Hered P r) : P r.len = .ok r := by
+  cases h; assumption
+
+theorem Hered.child {P : Nat → Except String Recipe} {r : Recipe} (h : Hered P r) :
+    ∀ c ∈ r.children, Hered P c := by
+  cases h; assumption
+
+theorem scalarForLen_top {F n : Nat} {r : Recipe} (h : scalarForLen F n = .ok r) : planScalar r.len = .ok r := by
+  have h1 := planScalar_fuel_irrelevant F n r h
+  rw [planScalar_len h1]; exact h1
+
+theorem radixNFinish_children {base r : Recipe} {cross : Nat} (h : radixNFinish base cross = .ok r) :
+    r.children = [base] := by
+  unfold radixNFinish at h
+  simp only at h
+  split at h
+  · cases h; rfl
+  · split at h
+    · cases h
+    · cases h; rfl
+
+theorem scalar_hered (F : Nat) :
+    (∀ n r, scalarForLen F n = .ok r → Hered planScalar r) ∧
+    (∀ n f r, f.WF → f.n = n → 2 ≤ n → scalarWithFactors F n f = .ok r → Hered planScalar r) ∧
+    (∀ lf rf r, lf.WF → rf.WF → 2 ≤ lf.n → 2 ≤ rf.n → scalarMixedRadix F lf rf = .ok r →
+      ∀ c ∈ r.children, Hered planScalar c) ∧
+    (∀ f r, scalarRadixN F f = .ok r → ∀ c ∈ r.children, Hered planScalar c) ∧
+    (∀ n r, 3 ≤ n → scalarPrime F n = .ok r → ∀ c ∈ r.children, Hered planScalar c) := by
+  induction F with
+  | zero =>
+    refine ⟨?_, ?_, ?_, ?_, ?_⟩
+    · intro n r h; rw [scalarForLen] at h; cases h
+    · intro n f r _ _ _ h; rw [scalarWithFactors] at h; cases h
+    · intro l rf r _ _ _ _ h; rw [scalarMixedRadix] at h; cases h
+    · intro f r h; rw [scalarRadixN] at h; cases h
+    · intro n r _ h; rw [scalarPrime] at h; cases h
+  | succ F ih =>
+    obtain ⟨ih1, ih2, ih3, ih4, ih5⟩ := ih
+    refine ⟨?_, ?_, ?_, ?_, ?_⟩
+    · -- scalarForLen
+      intro n r h
+      have htop := scalarForLen_top h
+      rw [scalarForLen] at h
+      split at h
+      · cases h; exact Hered.mk _ htop (by intro c hc; simp [Recipe.children] at hc)
+      · rename_i hn
+        obtain ⟨f, hf, hwf, hfn, _⟩ := compute_spec n (by omega)
+        rw [hf] at h
+        exact ih2 n f r hwf hfn (by omega) h
+    · -- scalarWithFactors
+      intro n f r hwf hfn hn2 h
+      have htop : planScalar r.len = .ok r := by
+        obtain ⟨f', hf', hwf', hfn', _⟩ := compute_spec n (by omega)
+        have : f' = f := hwf'.unique hwf (by rw [hfn', hfn])
+        subst this
+        have : scalarForLen (F + 1 + 1) n = .ok r := by
+          rw [scalarForLen, if_neg (by omega), hf']; exact h
+        exact scalarForLen_top this
+      refine Hered.mk r htop ?_
+      rw [scalarWithFactors] at h
+      split at h
+      · cases h; intro c hc; simp [Recipe.children] at hc
+      · rename_i hnb
+        split at h
+        · rename_i hp
+          have h3 : 3 ≤ n := by
+            rcases Nat.lt_or_ge n 3 with hlt | hge
+            · have : n = 2 := by omega
+              subst this; exact absurd (by decide) hnb
+            · exact hge
+          exact ih5 n r h3 h
+        · rename_i hp
+          revert h
+          generalize (if n > 992 ∨ isPowerOfTwo n = true then (none : Option (Nat × Nat))
+            else butterflyProductSearch n (ceilSqrt n + 1) scalarProductButterflies (2 ^ 64) none) = prod
+          intro h
+          cases prod with
+          | some lr =>
+            obtain ⟨l, r'⟩ := lr
+            simp only at h
+            cases h1 : scalarForLen F l with
+            | error e => rw [h1] at h; cases h
+            | ok a =>
+              cases h2 : scalarForLen F r' with
+              | error e => rw [h1, h2] at h; cases h
+              | ok b =>
+                rw [h1, h2] at h
+                simp only at h
+                have ha := ih1 _ _ h1
+                have hb := ih1 _ _ h2
+                split at h <;> cases h <;>
+                · intro c hc
+                  simp only [Recipe.children, List.mem_cons, List.not_mem_nil, or_false] at hc
+                  rcases hc with rfl | rfl
+                  · exact ha
+                  · exact hb
+          | none =>
+            simp only at h
+            split at h
+            · exact ih4 _ _ h
+            · have hnp : f.isPrime = false := by
+                cases hq : f.isPrime with
+                | false => rfl
+                | true => exact absurd hq hp
+              obtain ⟨l, r', hpart, hlwf, hrwf, _, hl1, hr1⟩ := partition_spec f hwf hnp (by omega)
+              rw [hpart] at h
+              exact ih3 l r' r hlwf hrwf (by omega) (by omega) h
+    · -- scalarMixedRadix
+      intro lf rf r hlwf hrwf hl2 hr2 h
+      rw [scalarMixedRadix] at h
+      cases h1 : scalarWithFactors F lf.product lf with
+      | error e => rw [h1] at h; cases h
+      | ok a =>
+        cases h2 : scalarWithFactors F rf.product rf with
+        | error e => rw [h1, h2] at h; cases h
+        | ok b =>
+          rw [h1, h2] at h
+          simp only at h
+          have ha := ih2 _ _ _ hlwf rfl hl2 h1
+          have hb := ih2 _ _ _ hrwf rfl hr2 h2
+          have fin : ∀ c, c = a ∨ c = b → Hered planScalar c := by
+            rintro c (rfl | rfl)
+            · exact ha
+            · exact hb
+          split at h
+          · split at h <;> cases h <;>
+            · intro c hc
+              simp only [Recipe.children, List.mem_cons, List.not_mem_nil, or_false] at hc
+              exact fin c hc
+          · cases h
+            intro c hc
+            simp only [Recipe.children, List.mem_cons, List.not_mem_nil, or_false] at hc
+            exact fin c hc
+    · -- scalarRadixN
+      intro f r h
+      rw [scalarRadixN_eq] at h
+      cases hb : radixNBase f with
+      | error e => rw [hb] at h; cases h
+      | ok b =>
+        rw [hb] at h
+        simp only at h
+        unfold radixNTail at h
+        split at h
+        · cases h
+        · cases h1 : scalarForLen F b with
+          | error e => rw [h1] at h; cases h
+          | ok base =>
+            rw [h1] at h
+            simp only at h
+            rw [radixNFinish_children h]
+            intro c hc
+            simp only [List.mem_cons, List.not_mem_nil, or_false] at hc
+            subst hc
+            exact ih1 _ _ h1
+    · -- scalarPrime
+      intro n r hn3 h
+      rw [scalarPrime] at h
+      obtain ⟨rf, hrf, hrwf, hrn, _⟩ := compute_spec (n - 1) (by omega)
+      rw [hrf] at h
+      simp only at h
+      split at h
+      · cases h1 : scalarForLen F (bluesteinInnerLen n) with
+        | error e => rw [h1] at h; cases h
+        | ok inner =>
+          rw [h1] at h
+          cases h
+          intro c hc
+          simp only [Recipe.children, List.mem_cons, List.not_mem_nil, or_false] at hc
+          subst hc
+          exact ih1 _ _ h1
+      · cases h1 : scalarWithFactors F (n - 1) rf with
+        | error e => rw [h1] at h; cases h
+        | ok inner =>
+          rw [h1] at h
+          cases h
+          intro c hc
+          simp only [Recipe.children, List.mem_cons, List.not_mem_nil, or_false] at hc
+          subst hc
+          exact ih2 _ _ _ hrwf hrn (by omega) h1
+
+theorem planScalar_hered {n : Nat} {r : Recipe} (h : planScalar n = .ok r) : Hered planScalar r :=
+  (scalar_hered _).1 n r h
+
+/-! ### canonical caches: `build_fft` of a hereditary recipe returns the recipe itself -/
+
+/-- every instance the cache hands out is the tree `P` designs for its key -/
+def CanonCache (P : Nat → Except String Recipe) (c : InstCache) : Prop :=
+  ∀ k t, c.get? k = some t → P k = .ok t
+
+theorem canonCache_nil (P : Nat → Except String Recipe) : CanonCache P [] := by
+  intro k t h; simp [InstCache.get?] at h
+
+theorem canonCache_insert {P : Nat → Except String Recipe} {c : InstCache} (hc : CanonCache P c) {t : Recipe}
+    (ht : P t.len = .ok t) : CanonCache P (c.insert t) := by
+  intro k t' h
+  rw [InstCache.get?_insert] at h
+  split at h
+  · rename_i hk
+    cases h
+    rw [hk]; exact ht
+  · exact hc k t' h
+
+theorem orBuild_canon {P : Nat → Except String Recipe} {c : InstCache} {r : Recipe}
+    {build : Unit → Except String (Recipe × InstCache)} {t : Recipe} {c' : InstCache}
+    (hc : CanonCache P c) (hr : P r.len = .ok r)
+    (hb : ∀ t c', build () = .ok (t, c') → t = r ∧ CanonCache P c')
+    (h : orBuild c r.len build = .ok (t, c')) : t = r ∧ CanonCache P c' := by
+  unfold orBuild at h
+  split at h
+  · rename_i inst hg
+    cases h
+    have := hc _ _ hg
+    rw [hr] at this
+    cases this
+    exact ⟨rfl, hc⟩
+  · exact hb t c' h
+
+theorem buildFft_canon (P : Nat → Except String Recipe) (ty : ElemTy) (r : Recipe) :
+    ∀ (c : InstCache), Hered P r → CanonCache P c → ∀ t c', buildFft ty c r = .ok (t, c') →
+      t = r ∧ CanonCache P c' := by
+  induction r with
+  | dft n =>
+    intro c hr hc t c' h
+    refine orBuild_canon (r := .dft n) hc hr.top (fun t c' hb => ?_) h
+    obtain ⟨ii, c1, h1, h2, _, h4⟩ := finish1_ok hb
+    cases h1; subst h4
+    exact ⟨h2, canonCache_insert hc (by rw [h2]; exact hr.top)⟩
+  | bfly n =>
+    intro c hr hc t c' h
+    refine orBuild_canon (r := .bfly n) hc hr.top (fun t c' hb => ?_) h
+    obtain ⟨ii, c1, h1, h2, _, h4⟩ := finish1_ok hb
+    cases h1; subst h4
+    exact ⟨h2, canonCache_insert hc (by rw [h2]; exact hr.top)⟩
+  | primeBfly n =>
+    intro c hr hc t c' h
+    refine orBuild_canon (r := .primeBfly n) hc hr.top (fun t c' hb => ?_) h
+    obtain ⟨ii, c1, h1, h2, _, h4⟩ := finish1_ok hb
+    cases h1; subst h4
+    exact ⟨h2, canonCache_insert hc (by rw [h2]; exact hr.top)⟩
+  | avxBfly n =>
+    intro c hr hc t c' h
+    refine orBuild_canon (r := .avxBfly n) hc hr.top (fun t c' hb => ?_) h
+    obtain ⟨ii, c1, h1, h2, _, h4⟩ := finish1_ok hb
+    cases h1; subst h4
+    exact ⟨h2, canonCache_insert hc (by rw [h2]; exact hr.top)⟩
+  | mixedRadix l r ihl ihr =>
+    intro c hr hc t c' h
+    refine orBuild_canon (r := .mixedRadix l r) hc hr.top (fun t c' hb => ?_) h
+    obtain ⟨li, c1, ri, c2, h1, h2, h3, _, h5⟩ := finish2_ok hb
+    obtain ⟨e1, hc1⟩ := ihl c (hr.child l (by simp [Recipe.children])) hc li c1 h1
+    obtain ⟨e2, hc2⟩ := ihr c1 (hr.child r (by simp [Recipe.children])) hc1 ri c2 h2
+    subst e1; subst e2; subst h5
+    exact ⟨h3, canonCache_insert hc2 (by rw [h3]; exact hr.top)⟩
+  | mixedRadixSmall l r ihl ihr =>
+    intro c hr hc t c' h
+    refine orBuild_canon (r := .mixedRadixSmall l r) hc hr.top (fun t c' hb => ?_) h
+    obtain ⟨li, c1, ri, c2, h1, h2, h3, _, h5⟩ := finish2_ok hb
+    obtain ⟨e1, hc1⟩ := ihl c (hr.child l (by simp [Recipe.children])) hc li c1 h1
+    obtain ⟨e2, hc2⟩ := ihr c1 (hr.child r (by simp [Recipe.children])) hc1 ri c2 h2
+    subst e1; subst e2; subst h5
+    exact ⟨h3, canonCache_insert hc2 (by rw [h3]; exact hr.top)⟩
+  | goodThomas l r ihl ihr =>
+    intro c hr hc t c' h
+    refine orBuild_canon (r := .goodThomas l r) hc hr.top (fun t c' hb => ?_) h
+    obtain ⟨li, c1, ri, c2, h1, h2, h3, _, h5⟩ := finish2_ok hb
+    obtain ⟨e1, hc1⟩ := ihl c (hr.child l (by simp [Recipe.children])) hc li c1 h1
+    obtain ⟨e2, hc2⟩ := ihr c1 (hr.child r (by simp [Recipe.children])) hc1 ri c2 h2
+    subst e1; subst e2; subst h5
+    exact ⟨h3, canonCache_insert hc2 (by rw [h3]; exact hr.top)⟩
+  | goodThomasSmall l r ihl ihr =>
+    intro c hr hc t c' h
+    refine orBuild_canon (r := .goodThomasSmall l r) hc hr.top (fun t c' hb => ?_) h
+    obtain ⟨li, c1, ri, c2, h1, h2, h3, _, h5⟩ := finish2_ok hb
+    obtain ⟨e1, hc1⟩ := ihl c (hr.child l (by simp [Recipe.children])) hc li c1 h1
+    obtain ⟨e2, hc2⟩ := ihr c1 (hr.child r (by simp [Recipe.children])) hc1 ri c2 h2
+    subst e1; subst e2; subst h5
+    exact ⟨h3, canonCache_insert hc2 (by rw [h3]; exact hr.top)⟩
+  | raders i ih =>
+    intro c hr hc t c' h
+    refine orBuild_canon (r := .raders i) hc hr.top (fun t c' hb => ?_) h
+    obtain ⟨ii, c1, h1, h2, _, h4⟩ := finish1_ok hb
+    obtain ⟨e1, hc1⟩ := ih c (hr.child i (by simp [Recipe.children])) hc ii c1 h1
+    subst e1; subst h4
+    exact ⟨h2, canonCache_insert hc1 (by rw [h2]; exact hr.top)⟩
+  | bluesteins n i ih =>
+    intro c hr hc t c' h
+    refine orBuild_canon (r := .bluesteins n i) hc hr.top (fun t c' hb => ?_) h
+    obtain ⟨ii, c1, h1, h2, _, h4⟩ := finish1_ok hb
+    obtain ⟨e1, hc1⟩ := ih c (hr.child i (by simp [Recipe.children])) hc ii c1 h1
+    subst e1; subst h4
+    exact ⟨h2, canonCache_insert hc1 (by rw [h2]; exact hr.top)⟩
+  | radixN fs b ih =>
+    intro c hr hc t c' h
+    refine orBuild_canon (r := .radixN fs b) hc hr.top (fun t c' hb => ?_) h
+    obtain ⟨ii, c1, h1, h2, _, h4⟩ := finish1_ok hb
+    obtain ⟨e1, hc1⟩ := ih c (hr.child b (by simp [Recipe.children])) hc ii c1 h1
+    subst e1; subst h4
+    exact ⟨h2, canonCache_insert hc1 (by rw [h2]; exact hr.top)⟩
+  | radix4 k b ih =>
+    intro c hr hc t c' h
+    refine orBuild_canon (r := .radix4 k b) hc hr.top (fun t c' hb => ?_) h
+    obtain ⟨ii, c1, h1, h2, _, h4⟩ := finish1_ok hb
+    obtain ⟨e1, hc1⟩ := ih c (hr.child b (by simp [Recipe.children])) hc ii c1 h1
+    subst e1; subst h4
+    exact ⟨h2, canonCache_insert hc1 (by rw [h2]; exact hr.top)⟩
+  | radix3 k b ih =>
+    intro c hr hc t c' h
+    refine orBuild_canon (r := .radix3 k b) hc hr.top (fun t c' hb => ?_) h
+    obtain ⟨ii, c1, h1, h2, _, h4⟩ := finish1_ok hb
+    obtain ⟨e1, hc1⟩ := ih c (hr.child b (by simp [Recipe.children])) hc ii c1 h1
+    subst e1; subst h4
+    exact ⟨h2, canonCache_insert hc1 (by rw [h2]; exact hr.top)⟩
+  | sseRadix4 k b ih =>
+    intro c hr hc t c' h
+    refine orBuild_canon (r := .sseRadix4 k b) hc hr.top (fun t c' hb => ?_) h
+    obtain ⟨ii, c1, h1, h2, _, h4⟩ := finish1_ok hb
+    obtain ⟨e1, hc1⟩ := ih c (hr.child b (by simp [Recipe.children])) hc ii c1 h1
+    subst e1; subst h4
+    exact ⟨h2, canonCache_insert hc1 (by rw [h2]; exact hr.top)⟩
+  | avxMixedRadix rad i ih =>
+    intro c hr hc t c' h
+    refine orBuild_canon (r := .avxMixedRadix rad i) hc hr.top (fun t c' hb => ?_) h
+    obtain ⟨ii, c1, h1, h2, _, h4⟩ := finish1_ok hb
+    obtain ⟨e1, hc1⟩ := ih c (hr.child i (by simp [Recipe.children])) hc ii c1 h1
+    subst e1; subst h4
+    exact ⟨h2, canonCache_insert hc1 (by rw [h2]; exact hr.top)⟩
+  | avxRaders i ih =>
+    intro c hr hc t c' h
+    refine orBuild_canon (r := .avxRaders i) hc hr.top (fun t c' hb => ?_) h
+    obtain ⟨ii, c1, h1, h2, _, h4⟩ := finish1_ok hb
+    obtain ⟨e1, hc1⟩ := ih c (hr.child i (by simp [Recipe.children])) hc ii c1 h1
+    subst e1; subst h4
+    exact ⟨h2, canonCache_insert hc1 (by rw [h2]; exact hr.top)⟩
+  | avxBluesteins n i ih =>
+    intro c hr hc t c' h
+    refine orBuild_canon (r := .avxBluesteins n i) hc hr.top (fun t c' hb => ?_) h
+    obtain ⟨ii, c1, h1, h2, _, h4⟩ := finish1_ok hb
+    obtain ⟨e1, hc1⟩ := ih c (hr.child i (by simp [Recipe.children])) hc ii c1 h1
+    subst e1; subst h4
+    exact ⟨h2, canonCache_insert hc1 (by rw [h2]; exact hr.top)⟩
+
+/-! ### the SSE twin -/
+
+theorem sseForLen_top {F n : Nat} {r : Recipe} (h : sseForLen F n = .ok r) : planSse r.len = .ok r := by
+  have h1 := planSse_fuel_irrelevant F n r h
+  rw [planSse_len h1]; exact h1
+
+theorem sseButterfly_children {n : Nat} {r : Recipe} (h : sseButterfly n = some r) : r.children = [] := by
+  unfold sseButterfly at h
+  split at h
+  · cases h; rfl
+  · split at h
+    · cases h; rfl
+    · cases h
+
+theorem sseButterfly_one : sseButterfly 1 = some (.bfly 1) := by decide
+
+theorem compute_ok_wf {n : Nat} {f : PrimeFactors} (h : PrimeFactors.compute n = .ok f) : f.WF ∧ f.n = n := by
+  have hn : 0 < n := by
+    rcases Nat.eq_zero_or_pos n with h0 | h0
+    · subst h0; simp [PrimeFactors.compute] at h
+    · exact h0
+  obtain ⟨f', hf', hwf, hfn, _⟩ := compute_spec n hn
+  rw [h] at hf'; cases hf'
+  exact ⟨hwf, hfn⟩
+
+theorem sse_hered (F : Nat) :
+    (∀ n r, sseForLen F n = .ok r → Hered planSse r) ∧
+    (∀ n f r, f.WF → f.n = n → 1 ≤ n → sseWithFactors F n f = .ok r → Hered planSse r) ∧
+    (∀ lf rf r, lf.WF → rf.WF → sseMixedRadix F lf rf = .ok r → ∀ c ∈ r.children, Hered planSse c) ∧
+    (∀ f r, sseRadix4 F f = .ok r → ∀ c ∈ r.children, Hered planSse c) ∧
+    (∀ n r, 2 ≤ n → ssePrime F n = .ok r → ∀ c ∈ r.children, Hered planSse c) := by
+  induction F with
+  | zero =>
+    refine ⟨?_, ?_, ?_, ?_, ?_⟩
+    · intro n r h; rw [sseForLen] at h; cases h
+    · intro n f r _ _ _ h; rw [sseWithFactors] at h; cases h
+    · intro l rf r _ _ h; rw [sseMixedRadix] at h; cases h
+    · intro f r h; rw [sseRadix4] at h; cases h
+    · intro n r _ h; rw [ssePrime] at h; cases h
+  | succ F ih =>
+    obtain ⟨ih1, ih2, ih3, ih4, ih5⟩ := ih
+    refine ⟨?_, ?_, ?_, ?_, ?_⟩
+    · -- sseForLen
+      intro n r h
+      have htop := sseForLen_top h
+      rw [sseForLen] at h
+      split at h
+      · cases h; exact Hered.mk _ htop (by intro c hc; simp [Recipe.children] at hc)
+      · rename_i hn
+        obtain ⟨f, hf, hwf, hfn, _⟩ := compute_spec n (by omega)
+        rw [hf] at h
+        exact ih2 n f r hwf hfn (by omega) h
+    · -- sseWithFactors
+      intro n f r hwf hfn hn1 h
+      have htop : planSse r.len = .ok r := by
+        obtain ⟨f', hf', hwf', hfn', _⟩ := compute_spec n (by omega)
+        have : f' = f := hwf'.unique hwf (by rw [hfn', hfn])
+        subst this
+        have : sseForLen (F + 1 + 1) n = .ok r := by
+          rw [sseForLen, if_neg (by omega), hf']; exact h
+        exact sseForLen_top this
+      refine Hered.mk r htop ?_
+      rw [sseWithFactors] at h
+      cases hbf : sseButterfly n with
+      | some b =>
+        rw [hbf] at h
+        cases h
+        rw [sseButterfly_children hbf]
+        intro c hc; cases hc
+      | none =>
+        rw [hbf] at h
+        simp only at h
+        have hn2 : 2 ≤ n := by
+          rcases Nat.lt_or_ge n 2 with hlt | hge
+          · have : n = 1 := by omega
+            subst this; rw [sseButterfly_one] at hbf; cases hbf
+          · exact hge
+        split at h
+        · exact ih5 n r hn2 h
+        · rename_i hp
+          split at h
+          · rename_i htz
+            split at h
+            · exact ih4 _ _ h
+            · rename_i hr
+              have htz' : trailingZeros n = f.p2 := by rw [← hfn]; exact hwf.trailingZeros_eq
+              have hp2 : 0 < f.p2 := by rw [← htz']; unfold MIN_RADIX4_BITS at htz; omega
+              obtain ⟨g, hg, hgwf, _, _⟩ := hwf.removeFactors_two hp2 hr
+              rw [htz', hg] at h
+              simp only at h
+              cases hcmp : PrimeFactors.compute (2 ^ f.p2) with
+              | error e => rw [hcmp] at h; cases h
+              | ok pt =>
+                rw [hcmp] at h
+                exact ih3 pt g r (compute_ok_wf hcmp).1 hgwf h
+          · revert h
+            generalize (if n > 13 ∧ n ≤ 1024 then ssePairSearch n sseAllButterflies (0, 0) else (0, 0)) = P
+            intro h
+            split at h
+            · cases h1 : PrimeFactors.compute P.1 with
+              | error e => rw [h1] at h; cases h
+              | ok fl =>
+                cases h2 : PrimeFactors.compute P.2 with
+                | error e => rw [h1, h2] at h; cases h
+                | ok fr =>
+                  rw [h1, h2] at h
+                  exact ih3 fl fr r (compute_ok_wf h1).1 (compute_ok_wf h2).1 h
+            · have hnp : f.isPrime = false := by
+                cases hq : f.isPrime with
+                | false => rfl
+                | true => exact absurd hq hp
+              obtain ⟨l, r', hpart, hlwf, hrwf, _, _, _⟩ := partition_spec f hwf hnp (by omega)
+              rw [hpart] at h
+              exact ih3 l r' r hlwf hrwf h
+    · -- sseMixedRadix
+      intro lf rf r hlwf hrwf h
+      rw [sseMixedRadix] at h
+      cases h1 : sseWithFactors F lf.product lf with
+      | error e => rw [h1] at h; cases h
+      | ok a =>
+        cases h2 : sseWithFactors F rf.product rf with
+        | error e => rw [h1, h2] at h; cases h
+        | ok b =>
+          rw [h1, h2] at h
+          simp only at h
+          have ha := ih2 _ _ _ hlwf rfl hlwf.pos h1
+          have hb := ih2 _ _ _ hrwf rfl hrwf.pos h2
+          have fin : ∀ c, c = a ∨ c = b → Hered planSse c := by
+            rintro c (rfl | rfl)
+            · exact ha
+            · exact hb
+          split at h
+          · split at h <;> cases h <;>
+            · intro c hc
+              simp only [Recipe.children, List.mem_cons, List.not_mem_nil, or_false] at hc
+              exact fin c hc
+          · cases h
+            intro c hc
+            simp only [Recipe.children, List.mem_cons, List.not_mem_nil, or_false] at hc
+            exact fin c hc
+    · -- sseRadix4
+      intro f r h
+      rw [sseRadix4_eq] at h
+      split at h
+      · cases h
+      · unfold sseRadix4Tail at h
+        simp only at h
+        split at h
+        · cases h
+        · split at h
+          · cases h
+          · cases h1 : sseForLen F (sseRadix4Base f.p2 f.p3) with
+            | error e => rw [h1] at h; cases h
+            | ok base =>
+              rw [h1] at h
+              cases h
+              intro c hc
+              simp only [Recipe.children, List.mem_cons, List.not_mem_nil, or_false] at hc
+              subst hc
+              exact ih1 _ _ h1
+    · -- ssePrime
+      intro n r hn2 h
+      rw [ssePrime] at h
+      obtain ⟨rf, hrf, hrwf, hrn, _⟩ := compute_spec (n - 1) (by omega)
+      rw [hrf] at h
+      simp only at h
+      split at h
+      · cases h1 : sseForLen F (bluesteinInnerLen n) with
+        | error e => rw [h1] at h; cases h
+        | ok inner =>
+          rw [h1] at h
+          cases h
+          intro c hc
+          simp only [Recipe.children, List.mem_cons, List.not_mem_nil, or_false] at hc
+          subst hc
+          exact ih1 _ _ h1
+      · cases h1 : sseWithFactors F (n - 1) rf with
+        | error e => rw [h1] at h; cases h
+        | ok inner =>
+          rw [h1] at h
+          cases h
+          intro c hc
+          simp only [Recipe.children, List.mem_cons, List.not_mem_nil, or_false] at hc
+          subst hc
+          exact ih2 _ _ _ hrwf hrn (by omega) h1
+
+theorem planSse_hered {n : Nat} {r : Recipe} (h : planSse n = .ok r) : Hered planSse r :=
+  (sse_hered _).1 n r h
+
+/-! ### canonicity of the scalar / SSE planners' trees -/
+
+/-- the recipe designer behind a planner kind (the AVX planner has none: it plans against its instance cache) -/
+def PlannerKind.design : PlannerKind → Nat → Except String Recipe
+  | .scalar => planScalar
+  | .sse => planSse
+  | .avx _ => fun _ => .error "the AVX planner plans against its instance cache"
+
+theorem planStep_canon (kind : PlannerKind) (hk : kind.usesRecipes = true) (ty : ElemTy) (s s' : PlannerState)
+    (len : Nat) (inverse : Bool) (t : Recipe) (hc : CanonCache kind.design (s.cache inverse))
+    (h : planStep kind ty s len inverse = .ok (t, s')) :
+    kind.design len = .ok t ∧ CanonCache kind.design (s'.cache inverse) := by
+  cases kind with
+  | scalar =>
+    obtain ⟨r, c', hr, hb, rfl⟩ := planStep_scalar_ok h
+    obtain ⟨e, hc'⟩ := buildFft_canon planScalar ty r _ (planScalar_hered hr) hc t c' hb
+    subst e
+    exact ⟨hr, by rw [PlannerState.cache_setCache]; exact hc'⟩
+  | sse =>
+    obtain ⟨r, c', hr, hb, rfl⟩ := planStep_sse_ok h
+    obtain ⟨e, hc'⟩ := buildFft_canon planSse ty r _ (planSse_hered hr) hc t c' hb
+    subst e
+    exact ⟨hr, by rw [PlannerState.cache_setCache]; exact hc'⟩
+  | avx avx2 => cases hk
+
+theorem planHistory_canon (kind : PlannerKind) (hk : kind.usesRecipes = true) (ty : ElemTy) :
+    ∀ (reqs : List (Nat × Bool)) (s : PlannerState) (ts : List Recipe) (s' : PlannerState),
+      (∀ b, CanonCache kind.design (s.cache b)) → planHistory kind ty reqs s = .ok (ts, s') →
+      List.Forall₂ (fun (t : Recipe) (rq : Nat × Bool) => kind.design rq.1 = .ok t) ts reqs ∧
+        (∀ b, CanonCache kind.design (s'.cache b)) := by
+  intro reqs
+  induction reqs with
+  | nil =>
+    intro s ts s' hs h
+    simp only [planHistory] at h
+    cases h
+    exact ⟨.nil, hs⟩
+  | cons rq rest ih =>
+    intro s ts s' hs h
+    obtain ⟨len, inv⟩ := rq
+    simp only [planHistory] at h
+    split at h
+    · cases h
+    · rename_i inst s1 hstep
+      split at h
+      · cases h
+      · rename_i insts s2 hrest
+        cases h
+        obtain ⟨h1, h2⟩ := planStep_canon kind hk ty s s1 len inv inst (hs inv) hstep
+        have hs1 : ∀ b, CanonCache kind.design (s1.cache b) := by
+          intro b
+          by_cases hb : b = inv
+          · subst hb; exact h2
+          · have hb' : b = !inv := by cases b <;> cases inv <;> simp_all
+            rw [hb', planStep_other kind ty s s1 len inv inst hstep]; exact hs _
+        obtain ⟨h4, h5⟩ := ih s1 insts s' hs1 hrest
+        exact ⟨.cons h1 h4, h5⟩
+
+theorem canonState_empty (P : Nat → Except String Recipe) : ∀ b, CanonCache P (PlannerState.empty.cache b) := by
+  intro b; cases b <;> exact canonCache_nil P
 
 end RFV
